@@ -13,7 +13,7 @@ import (
 )
 
 // Version is bumped whenever generation changes; case lists record it.
-const Version = "g11"
+const Version = "g12"
 
 // Region of a case (chosen by index so that budgets per region are fixed).
 type Region int
@@ -65,6 +65,7 @@ var Exemplars = []string{
 	`[a-zA-Z]+[0-9]+`, `\d+\s+\w+`, `[a-z]+[a-z]+[0-9]`,
 	`.+a.{4}`, `.+foo\d`, `[0-5]+\.[a-z]`, `[1-9][0-9]*x`, `(?i)^k\d+`, `^(?i:s)[a-z]+`, `aaa|foobar|bbb|ccc|ddd|eee|fff|ggg|foo`, `(?m)^(?:foo|bar|baz)`,
 	`\d+.aa`, `[a-z]+.aba`, `(?s).*foo`, `(\w\w?)`, `[0-9][a-z.]+\.txt`, `(a)|(b)`, `(\d+)(?:\.(\d+))?`, `^|,`, `(?P<bob>a+)(?P<bob>b+)`, `(get|getter)s?`,
+	`[a-z]+[0-9]+[A-Z]+`, `[a-c]+[0-9]+[x-z]+-+`, `\d+[a-z]+\d+`,
 	`[ax]+[by]+[ax]+[cz]+`, `[a-c]+[0-9]+[a-c]+x+`, `\w+[0-9]+\w+-+`, `[ab]+[bc]+[ab]+[cd]+`, `[a-c]+[b-d]+[c-e]+`,
 	`^(\d+|UUID|hex32)`, `^(foo|bar)`,
 	`foo|bar|baz`, `(?i)hello`,
